@@ -19,7 +19,7 @@ THEOREMS = ["outside_the_engine_the_glue_only_waits", "delivery_needs_engine_dat
             "query_requests_write_only_for_handshake", "suppressed_write_poll_is_restored", "idle_client_requests_write",
             "pending_only_advances_the_handshake", "send_only_writes", "receive_only_reads", "unlimited_receive_never_nothing",
             "send_io_inside_engine", "receive_io_inside_engine", "driver_paths_io_inside_engine",
-            "receive_now_keeps_the_interest", "send_some_keeps_the_interest", "pending_keeps_the_interest", "known_interest_is_polled"]
+            "receive_now_keeps_the_interest", "send_some_keeps_the_interest", "pending_keeps_the_interest", "known_interest_is_polled", "tls_send_complete"]
 
 CH, SF, CF, ST, OVH, CLOSE_NOTIFY = 120, 900, 60, 260, 22, 24
 E_SSL, E_WANT_READ, E_WANT_WRITE, E_SYSCALL, E_ZERO = 1, 2, 3, 5, 6
